@@ -201,6 +201,69 @@ def replay_response_vote(body):
     return 2, 'no native clause'
 
 
+def replay_next_node_idx(body):
+    m = body['model'] or {}
+    U = max(len(m.get('voters') or [0] * 5) - 1, 1)
+    r = mk_syncobj(m, U)
+    if r is None:
+        return 2, 'model not small enough'
+    obj, t, nodes = r
+    node = nodes[int(m.get('node', 0)) % U]
+    match0 = dict(getattr(obj, '_SyncObj__raftMatchIndex'))
+    role = getattr(obj, '_SyncObj__raftState')
+    msg = {'type': 'next_node_idx', 'next_node_idx': int(m.get('msg.next_node_idx', 1)), 'reset': bool(m.get('msg.reset', False)), 'success': bool(m.get('msg.success', False))}
+    try:
+        obj._SyncObj__onMessageReceived(node, msg)
+    except KeyError:
+        return 0, 'sender not tracked'
+    match1 = getattr(obj, '_SyncObj__raftMatchIndex')
+    out('role=%d msg=%r match %r -> %r' % (role, msg, match0, dict(match1)))
+    for n_, v in match0.items():
+        if match1.get(n_) != v:
+            ok = role == 2 and n_ == node and msg['success'] and match1[n_] == msg['next_node_idx'] - 1 and match1[n_] > v
+            if not ok:
+                return 1, 'matchIndex of %s changed %r -> %r without a success reply naming it' % (n_, v, match1.get(n_))
+    if role == 2 and msg['success'] and node in match0 and match1[node] != max(match0[node], msg['next_node_idx'] - 1):
+        return 1, 'matchIndex is not max(old, acknowledged)'
+    return 0, 'R10 holds natively'
+
+
+def replay_tick_leader(body):
+    import time as _t
+    m = body['model'] or {}
+    U = max(len(m.get('voters') or [0] * 5) - 1, 1)
+    m = dict(m)
+    m['raftState'] = 2
+    r = mk_syncobj(m, U)
+    if r is None:
+        return 2, 'model not small enough'
+    obj, t, nodes = r
+    now = _t.time()
+    from pysyncobj.monotonic import monotonic
+    setattr(obj, '_SyncObj__lastResponseTime', dict((n_, monotonic()) for n_ in nodes))
+    setattr(obj, '_SyncObj__noopIDx', 1)
+    setattr(obj, '_SyncObj__connectedNodes', set())
+    c0 = obj.raftCommitIndex
+    log = log_list(obj)
+    voters = getattr(obj, '_SyncObj__otherNodes')
+    match = getattr(obj, '_SyncObj__raftMatchIndex')
+    try:
+        obj._onTick(0.0)
+    except Exception as e:
+        return (1 if 'no-exception' in body['obligation'] else 0), 'tick raised %r' % (e,)
+    c1 = obj.raftCommitIndex
+    out('log=%r term=%d commit %d -> %d voters=%r match=%r' % (log, obj.raftCurrentTerm, c0, c1, sorted(n_.id for n_ in voters), dict((k.id, v) for k, v in match.items())))
+    if c1 < c0:
+        return 1, 'commit index moved backwards'
+    if c1 > c0:
+        cnt = 1 + sum(1 for n_ in voters if match.get(n_, 0) >= c1)
+        first = log[0][1]
+        term_ok = first <= c1 <= log[-1][1] and log[c1 - first][2] == obj.raftCurrentTerm
+        if not (cnt > (len(voters) + 1) / 2.0) or not term_ok:
+            return 1, 'commit advanced to %d with %d of %d holders, own-term entry: %r' % (c1, cnt, len(voters) + 1, term_ok)
+    return 0, 'R9 holds natively'
+
+
 # ------------------------------------------------------------------------------------------------ tcp
 def replay_tcp_parse(body):
     from pysyncobj.tcp_connection import TcpConnection, CONNECTION_STATE
@@ -314,6 +377,8 @@ REPLAYERS = {
     'msg.append_entries': replay_append_entries,
     'msg.request_vote': replay_request_vote,
     'msg.response_vote': replay_response_vote,
+    'msg.next_node_idx': replay_next_node_idx,
+    'tick.leader': replay_tick_leader,
     'tcp.parse': replay_tcp_parse,
     'ResizableFile.write': replay_journal, 'FileJournal.add': replay_journal, 'FileJournal.reopen': replay_journal,
     'FileJournal.deleteEntriesFrom': replay_journal, 'FileJournal.clear': replay_journal,
